@@ -4,43 +4,74 @@ Specs/Choice/English/BooleanModel*.json,
 Python-supported cases).  Call `model_cases(ctx)` from corr/c19.py; add `RTV.Props.C19` to PROPS_MODULES, the names
 in THEOREMS to REQUIRED_THEOREMS and the names in GEN to GEN.
 
-Compared: the fields the repository's runner compares (count, type_name, text, resolution value; score for GUID).
-A disagreement implementation/model is a `correspondence` report; a disagreement model/spec (which the theorem of the
-same family then also shows as a broken proof) or implementation/spec is a `property` report with the case as the
-concrete failing input."""
+Compared: EVERY field the Specs state for a result — count and order, TypeName, Text, Start / End where given, and
+every key of Resolution (`value`, `type`, `score`; str / bool / float as text, `translate.speccases.canon`) — which is
+what property C19 states ("text, type, offsets where given, and resolution fields").  The repository's own runner
+compares less (never Start / End, never Resolution.type, never the boolean score; see translate/speccases.py), so two
+families pass it and fail here, each in one field of every entity:
+  spec-field:IpAddress:Resolution.type:absent   recognize_ip_address reports {'value', 'score': 'None'} — no `type`
+  spec-field:Boolean:Resolution.score:0.0       recognize_boolean reports score 0.0, the Specs state the extractor's score
+(RTV.C19.spec_ip_type_absent / spec_boolean_score_differs are the kernel-checked witnesses; findings/specs-fields/.)
+Implementation and model are compared on the WHOLE ModelResult (type name, start, end, text, the whole resolution dict
+in insertion order — also keys the Specs do not state, e.g. the IP `score`): a disagreement is a `correspondence`
+report.  Implementation against spec, field by field: a `property` report `spec-field:<Model>:<field>[:<what>]` with the
+case as the concrete failing input.  Keys the implementation reports beyond the Specs are counted in the evidence
+(`c19_resolution_keys_beyond_specs`), never an alarm."""
 from lib import common
 from lib.common import cps
 from translate import speccases
 
-THEOREMS = ['spec_ip_cases', 'spec_ip_cases_zh', 'spec_guid_cases', 'spec_boolean_cases', 'spec_hashtag_cases',
-            'spec_mention_cases', 'spec_email_cases', 'spec_url_cases', 'spec_url_cases_zh', 'spec_case_counts']
+THEOREMS = ['spec_ip_cases_partial', 'spec_ip_type_absent', 'spec_ip_cases_zh_partial', 'spec_ip_type_absent_zh',
+            'spec_guid_cases', 'spec_boolean_cases_partial', 'spec_boolean_score_differs', 'spec_hashtag_cases',
+            'spec_mention_cases', 'spec_email_cases', 'spec_url_cases', 'spec_url_cases_zh', 'spec_case_counts',
+            'spec_field_counts']
 GEN = ['chartables', 'regexes', 'emojitable', 'preprocess', 'speccases', 'tlds', 'pytables', 'urlgrammar']
 PROPS_MODULE = 'RTV.Props.C19'
+MODEL_NAME = {'ipEn': 'IpAddress', 'ipZh': 'IpAddress', 'guid': 'GUID', 'bool': 'Boolean', 'hashtag': 'Hashtag',
+              'mention': 'Mention', 'email': 'Email', 'urlEn': 'URL', 'urlZh': 'URL'}
 
 
-def _expected(key, res):
+def ent_str(type_name, start, end, text, res):
+    """the driver's `showEnt` format: typecps:start:end:textcps:keycps=valuecps,…"""
+    return '%s:%d:%d:%s:%s' % (cps(type_name), start, end, cps(text),
+                               ','.join('%s=%s' % (cps(k), cps(speccases.canon(v))) for k, v in res))
+
+
+def parse_ents(line):
+    """driver / implementation line -> [(type, start, end, text, [(key, value text)])]"""
     out = []
-    for r in res:
-        if key == 'bool':
-            out.append('%s:%s:%d' % (cps(r['TypeName']), cps(r['Text']), 1 if r['Resolution']['value'] is True else 0))
-        elif key == 'guid':
-            out.append('%s:%s:%s:%s' % (cps(r['TypeName']), cps(r['Text']), cps(str(r['Resolution']['value'])),
-                                        cps(str(r['Resolution']['score'])) if 'score' in r['Resolution'] else '*'))
-        else:
-            out.append('%s:%s:%s' % (cps(r['TypeName']), cps(r['Text']), cps(str(r['Resolution']['value']))))
-    return ';'.join(out)
+    for part in [p for p in line.split(';') if p]:
+        t, a, b, x, res = part.split(':')
+        kv = []
+        for item in [i for i in res.split(',') if i]:
+            k, v = item.split('=')
+            kv.append((common.uncps(k), common.uncps(v)))
+        out.append((common.uncps(t), int(a), int(b), common.uncps(x), kv))
+    return out
 
 
-def _agree(a, b):
-    """field-wise equality where `*` (score not stated by the spec) matches anything"""
-    pa, pb = a.split(';') if a else [], b.split(';') if b else []
-    if len(pa) != len(pb):
-        return False
-    for x, y in zip(pa, pb):
-        fx, fy = x.split(':'), y.split(':')
-        if len(fx) != len(fy) or any(u != v and '*' not in (u, v) for u, v in zip(fx, fy)):
-            return False
-    return True
+def differing_fields(ents, res):
+    """fields of the expected results `res` (Specs JSON) that the reported `ents` do not meet ->
+    [(field, what, detail)]; [] = the case passes in every stated field"""
+    if len(ents) != len(res):
+        return [('count', '', 'reports %d entities, the case expects %d' % (len(ents), len(res)))]
+    out = []
+    for i, ((t, a, b, x, kv), r) in enumerate(zip(ents, res)):
+        et, ex, ea, eb, eres = speccases.expected_fields(r)
+        d = dict(kv)
+        for name, got, want in (('TypeName', t, et), ('Text', x, ex), ('Start', a, ea), ('End', b, eb)):
+            if want is not None and got != want:
+                out.append((name, '', 'entity %d: %s %r, expected %r' % (i, name, got, want)))
+        for k, v in eres:
+            if k not in d:
+                out.append(('Resolution.' + k, ':absent', 'entity %d: no Resolution.%s (keys %s), expected %r' % (
+                    i, k, sorted(d), v)))
+            elif d[k] != v:
+                # the reported value is part of the signature when it is short (a constant such as 0.0 / None):
+                # another wrong value is another finding
+                what = ':' + d[k] if (k != 'value' and len(d[k]) <= 6) else ''
+                out.append(('Resolution.' + k, what, 'entity %d: Resolution.%s %r, expected %r' % (i, k, d[k], v)))
+    return out
 
 
 def model_cases(ctx):
@@ -49,10 +80,11 @@ def model_cases(ctx):
     import recognizers_choice
     from recognizers_sequence.sequence.sequence_recognizer import (recognize_ip_address, recognize_guid, recognize_hashtag,
                                                                   recognize_mention, recognize_email, recognize_url)
-    simple = {'hashtag': recognize_hashtag, 'mention': recognize_mention, 'email': recognize_email,
-              'urlEn': recognize_url, 'urlZh': recognize_url}
     from recognizers_choice import recognize_boolean
     common.assert_tree_modules(recognizers_sequence, recognizers_choice)
+    fns = {'ipEn': recognize_ip_address, 'ipZh': recognize_ip_address, 'guid': recognize_guid, 'bool': recognize_boolean,
+           'hashtag': recognize_hashtag, 'mention': recognize_mention, 'email': recognize_email,
+           'urlEn': recognize_url, 'urlZh': recognize_url}
     fam = speccases.families()
     lines, meta = [], []
     for key, cases in fam.items():
@@ -74,35 +106,42 @@ def model_cases(ctx):
             lines.append(op)
             meta.append((key, f, idx, inp, res, culture, op))
     model = common.driver(lines)
+    beyond, stated, allok = {}, {}, {}
     for (key, f, idx, inp, res, culture, op), m in zip(meta, model):
         try:
-            if key in ('ipEn', 'ipZh'):
-                rs = recognize_ip_address(inp, culture)
-                impl = ';'.join('%s:%s:%s' % (cps(r.type_name), cps(r.text), cps(str(r.resolution['value']))) for r in rs)
-            elif key in simple:
-                rs = simple[key](inp, culture)
-                impl = ';'.join('%s:%s:%s' % (cps(r.type_name), cps(r.text), cps(str(r.resolution['value']))) for r in rs)
-            elif key == 'guid':
-                rs = recognize_guid(inp, culture)
-                impl = ';'.join('%s:%s:%s:%s' % (cps(r.type_name), cps(r.text), cps(str(r.resolution['value'])),
-                                                 cps(str(r.resolution['score']))) for r in rs)
-            else:
-                rs = recognize_boolean(inp, culture)
-                impl = ';'.join('%s:%s:%d' % (cps(r.type_name), cps(r.text), 1 if r.resolution['value'] is True else 0) for r in rs)
+            rs = fns[key](inp, culture)
+            impl = ';'.join(ent_str(r.type_name, r.start, r.end, r.text, list(r.resolution.items())) for r in rs)
         except Exception as e:
-            impl = 'err:Other'
-        exp = _expected(key, res)
+            rs, impl = None, 'err:Other'
         ctx.count('c19-model-' + key)
         if impl:
             ctx.nontriv(('c19m', key, inp))
         fi = {'op': op.split('\t')[0], 'spec_file': f, 'spec_index': idx, 'input': inp, 'culture': culture,
-              'implementation': impl, 'model': m, 'spec': exp}
+              'implementation': impl, 'model': m,
+              'spec': [speccases.expected_fields(r) for r in res]}
         if impl != m:
             ctx.report('correspondence', 'c19-model-' + key,
-                       '%s #%d %r: implementation %s, model %s (spec %s)' % (f, idx, inp, impl, m, exp),
-                       failing_input=fi, property_fails=not _agree(impl, exp))
-        elif not _agree(m, exp):
-            ctx.report('property', 'c19-spec-' + key,
-                       '%s #%d %r: model and implementation give %s, the spec expects %s' % (f, idx, inp, m, exp),
-                       failing_input=fi, property_fails=True)
+                       '%s #%d %r: implementation %s, model %s' % (f, idx, inp, impl, m), failing_input=fi)
+        # implementation against the spec, field by field
+        if rs is None:
+            diffs = [('exception', '', 'the recogniser raises')]
+        else:
+            diffs = differing_fields(parse_ents(impl), res)
+            for r, e in zip(rs, res):
+                for k in r.resolution:
+                    if k not in (e.get('Resolution') or {}):
+                        beyond.setdefault(key, {}).setdefault(k, 0)
+                        beyond[key][k] += 1
+        for r in res:
+            for fld in [x for x in ('Start', 'End') if x in r] + ['Resolution.' + k for k in (r.get('Resolution') or {})]:
+                stated.setdefault(key, {}).setdefault(fld, 0)
+                stated[key][fld] += 1
+        for field, what, detail in diffs:
+            ctx.report('property', 'spec-field:%s:%s%s' % (MODEL_NAME[key], field, what),
+                       '%s #%d %r (%s): %s' % (f, idx, inp, culture, detail), failing_input=fi, property_fails=True)
+        if not diffs:
+            allok[key] = allok.get(key, 0) + 1
     ctx.extra['c19_model_cases'] = {k: len(v) for k, v in fam.items()}
+    ctx.extra['c19_fields_stated_by_specs'] = stated
+    ctx.extra['c19_cases_agreeing_in_every_stated_field'] = allok
+    ctx.extra['c19_resolution_keys_beyond_specs'] = beyond
